@@ -264,6 +264,14 @@ NONINT = ['7 / 7', '1.5', '"a"', "'ab'", "''", '1e3', '[1]', '1 == 1', 'None', '
 # drawn less often so that most malformed / non-integer cases are also compared with the model
 PY_ONLY = {'1e', '$5', '5 @', '!1', '1 = 2', '1 ? 2 : 3', '1 if', 'lambda', '2 **', '1..2', '`1`', '1.5', '"a"', '1e3', '[1]',
            '1 == 1', 'None', '2 ** -1', 'True', '1 < 2', 'not 1', '1j', '0.0', '"a" * 2', '{}', '1.', '.5'}
+# expressions whose evaluation raises an UNUSUAL exception type inside Python's eval (IndexError, KeyError,
+# TypeError variants, AttributeError): the assembler must still answer with its own error.  Tokens are split on
+# whitespace and commas and re-joined with single spaces, so none of these contains either.
+PY_EXC = ['[4][1]', '"ab"[2]', '{}[0]', '{}["k"]', '()[0]', '[][0]', "''[0]", 'b"a"[5]', '[1]["a"]', '(1)(2)', '1 .foo',
+          '"a"+1', '-"a"', '1<"a"', '"%d"%"x"', '{[]:1}', 'None[0]', 'None.x', '[4][-2]', '"ab"[-3]', '{1:2}[3]', '(0)[0]',
+          '[[1]][0][1]', '"a".nope', '[].pop()', '{}.popitem()', '"{}{}".format(1)', '"%(k)d"%{}', '1//0.0', '10.0**1000']
+# non-ASCII text inside an expression (character / string literals): the model is ASCII-only, the oracle still applies
+UNICODE_EXPR = ["'\u00e9'", "'\u2192'", '"\u65e5\u672c"', "'\u00df'", '"\u00fc"[3]', '\u03c0', '1+\u00b5', "'\U0001f600'"]
 # escapes `unicode_escape` rejects: a raw UnicodeDecodeError in the unmodified code (finding KF-C15-esc)
 BAD_ESCAPES = ["'\\'", "'\\x'", "'\\x4'", "'\\u12'", "'\\N{x}'", "'\\U0000'"]
 NONINT_SEQ = [
@@ -287,6 +295,19 @@ ERROR = [
     ('doc', "error This device doesn't support displays"),
     ('upper-one', 'ERROR stop'),
 ]
+# messages with text outside ASCII / outside Latin-1 (the documentation's regex is `error (.*)`: any text)
+ERROR_UNICODE = [
+    ('latin1', 'error caf\u00e9 not supported'),
+    ('latin1-umlaut', 'error Gr\u00f6\u00dfe zu gro\u00df'),
+    ('arrow', 'error unsupported \u2192 use another board'),
+    ('dash', 'error size \u2014 too large'),
+    ('le', 'error need size \u2264 4'),
+    ('cjk', 'error \u65e5\u672c\u8a9e\u306e\u30e1\u30c3\u30bb\u30fc\u30b8'),
+    ('emoji', 'error stop \U0001f6d1'),
+    ('indent-cjk', '    error \u4e0d\u652f\u6301'),
+    ('mixed-escape', 'error tab\\there \u2192 done'),
+    ('greek', 'error \u03bcs timer missing'),
+]
 ERROR_BAD_ESCAPE = [('escape-bad', 'error trailing\\'), ('escape-bad-x', 'error bad \\x escape')]
 INCLUDE = [
     ('plain', 'include missing_file.asm'),
@@ -298,6 +319,19 @@ INCLUDE = [
     ('spaces', 'include    far_away.asm   '),
     ('tab', 'include\tno_such_file.asm'),
     ('no-ext', 'include definitions'),
+    # other path forms ({ROOT} = the directory of the main file, substituted when the tree is written)
+    ('dot', 'include ./missing_here.asm'),
+    ('dotdot', 'include ../bbc15_missing_up.asm'),
+    ('existing-subdir', 'include sub0/missing_in_sub.asm'),
+    ('abs', 'include /nonexistent-bbc15/missing_file.asm'),
+    ('abs-root', 'include {ROOT}/missing_abs.asm'),
+    ('abs-root-quoted', 'include "{ROOT}/sub1/none.asm"'),
+    ('abs-upper', 'INCLUDE /nonexistent-bbc15/lib/defs.asm  # absolute'),
+    ('bytes', 'include_bytes missing_blob.bin'),
+    ('bytes-subdir', 'include_bytes data/missing_blob.bin'),
+    ('bytes-abs', 'include_bytes /nonexistent-bbc15/blob.bin'),
+    ('bytes-abs-root', 'include_bytes {ROOT}/nothing.bin'),
+    ('bytes-dot', 'include_bytes ./missing_blob.bin'),
 ]
 
 
@@ -335,8 +369,16 @@ def choose_fault(rnd, cls, labels, escapes=True):
         after = list(t[3]) if len(t) > 3 else []
         text = text.replace('{C}', rnd.choice(UNDEF_CONSTS))
     elif cls in ('malformed', 'nonint'):
-        if cls == 'nonint' and rnd.random() < 0.2:
+        k0 = rnd.random()
+        if cls == 'nonint' and k0 < 0.2:
             variant, text, control = rnd.choice(NONINT_SEQ)
+        elif cls == 'nonint' and k0 < 0.4:
+            ctx, tmpl, control, paren = rnd.choice(EXPR_CTX)
+            e = rnd.choice(PY_EXC if k0 < 0.34 else UNICODE_EXPR)
+            while not paren and e.lstrip().startswith('('):
+                e = rnd.choice(PY_EXC)
+            variant = ctx + ':py:' + e
+            text = tmpl.replace('{E}', e)
         else:
             ctx, tmpl, control, paren = rnd.choice(EXPR_CTX)
             if cls == 'malformed' and escapes and rnd.random() < 0.06:
@@ -366,8 +408,11 @@ def choose_fault(rnd, cls, labels, escapes=True):
             after = None        # the companion goes to a separate position (see plant)
         indent = False
     elif cls == 'error':
-        if escapes and rnd.random() < 0.06:
+        k0 = rnd.random()
+        if escapes and k0 < 0.06:
             variant, text = rnd.choice(ERROR_BAD_ESCAPE)
+        elif escapes and k0 < 0.3:
+            variant, text = rnd.choice(ERROR_UNICODE)
         else:
             variant, text = rnd.choice(ERROR)
         control = None
@@ -506,11 +551,13 @@ class Tree:
         return parent_dir + sub + rnd.choice(['inc_%d.asm', 'part%d.asm', 'defs_%d.s', 'mod%d.inc']) % self.n
 
 
-def _noise(rnd):
+def _noise(rnd, unicode_noise=False):
+    if unicode_noise and rnd.random() < 0.5:
+        return rnd.choice(['# Kommentar: Gr\u00f6\u00dfe \u2192 4', '    # \u65e5\u672c\u8a9e', '# \u2014\u2014\u2014', '# caf\u00e9'])
     return rnd.choice(['', '', '   ', '# comment line', '    # indented comment', '\t'])
 
 
-def build_tree(rnd, flat, depth, fault_depth):
+def build_tree(rnd, flat, depth, fault_depth, unicode_noise=False):
     """cut `flat` into a tree of files of include depth `depth` with the 'fault' line at depth
     `fault_depth` (0 = main file).  Returns a Tree; main file is 'main.asm'."""
     tree = Tree()
@@ -565,7 +612,7 @@ def build_tree(rnd, flat, depth, fault_depth):
         lines = []
         for text, tag in out:
             while rnd.random() < 0.15:
-                lines.append(_noise(rnd))
+                lines.append(_noise(rnd, unicode_noise))
             lines.append(text)
             if tag:
                 tree.where[tag] = (path, len(lines))
@@ -582,7 +629,7 @@ def materialise(tree, root):
     for rel, lines in tree.files.items():
         p = os.path.join(root, rel)
         os.makedirs(os.path.dirname(p), exist_ok=True)
-        with open(p, 'w', encoding='ascii', newline='') as f:
+        with open(p, 'w', encoding='utf-8', newline='') as f:
             f.write('\n'.join(lines) + '\n')
 
 
